@@ -308,6 +308,7 @@ func C07(p *engine.Prog, r *engine.Report) {
 	r.Floor("C07-R5", 3, "god, height, diff")
 	c07R8(p, r)
 	c07R9(p, r)
+	c07R10(p, r)
 }
 
 func c07R2(p *engine.Prog, r *engine.Report) {
@@ -730,4 +731,160 @@ func c07R9(p *engine.Prog, r *engine.Report) {
 	if n == 0 {
 		r.OK("C07-R9", "thresholds|no floating point conversion in the threshold functions", "", "integer arithmetic only")
 	}
+}
+
+// c07R10: (a) a header is valid only with EXACTLY one of its two parts: with both set, Hash/Height
+// read the proposed part while Seed/Flags/Root read the empty part and ValidateHeader skips the seed
+// proof — the certificate would be checked over one block while the next committee is drawn from a
+// seed the sender chose; decided by evaluating Header.IsValid for the four nil/non-nil combinations;
+// (b) every caller of determineValidators binds its first result to Validators and its second to
+// ApprovedValidators (swapped results make every member "approved").
+func c07R10(p *engine.Prog, r *engine.Report) {
+	if f := mustFunc(p, r, "blockchain/types", "Header.IsValid"); f != nil {
+		r.Fn(engine.FuncName(f))
+		// possible truth of a value under an assignment of the two "is nil" facts
+		type tri int // 1 = false possible, 2 = true possible, 3 = both
+		var eval func(v ssa.Value, eNil, pNil bool, at *ssa.BasicBlock, depth int) tri
+		var feasible func(eNil, pNil bool) (map[engine.Edge]bool, map[*ssa.BasicBlock]bool)
+		memo := map[[2]bool][2]interface{}{}
+		isNilOf := func(v ssa.Value) (string, bool) {
+			if _, fld, ok := engine.FieldOf(engine.Origin(v)); ok && (fld == "EmptyBlockHeader" || fld == "ProposedHeader") {
+				return fld, true
+			}
+			return "", false
+		}
+		eval = func(v ssa.Value, eNil, pNil bool, at *ssa.BasicBlock, depth int) tri {
+			if depth > 12 {
+				return 3
+			}
+			switch x := v.(type) {
+			case *ssa.Const:
+				if x.Value != nil && x.Value.ExactString() == "true" {
+					return 2
+				}
+				return 1
+			case *ssa.UnOp:
+				if x.Op == token.NOT {
+					t := eval(x.X, eNil, pNil, at, depth+1)
+					switch t {
+					case 1:
+						return 2
+					case 2:
+						return 1
+					}
+					return 3
+				}
+			case *ssa.BinOp:
+				if x.Op == token.EQL || x.Op == token.NEQ {
+					for _, pr := range [][2]ssa.Value{{x.X, x.Y}, {x.Y, x.X}} {
+						if k, isK := pr[1].(*ssa.Const); isK && k.IsNil() {
+							if fld, ok := isNilOf(pr[0]); ok {
+								n := pNil
+								if fld == "EmptyBlockHeader" {
+									n = eNil
+								}
+								if (x.Op == token.EQL) == n {
+									return 2
+								}
+								return 1
+							}
+						}
+					}
+				}
+			case *ssa.Phi:
+				// short-circuit && / ||: only the edges that are taken under the assignment
+				cutE, reach := feasible(eNil, pNil)
+				var out tri
+				for i, e := range x.Edges {
+					pred := x.Block().Preds[i]
+					if !reach[pred] {
+						continue
+					}
+					taken := false
+					for si, sc := range pred.Succs {
+						if sc == x.Block() && !cutE[engine.Edge{From: pred, Succ: si}] {
+							taken = true
+						}
+					}
+					if taken {
+						out |= eval(e, eNil, pNil, pred, depth+1)
+					}
+				}
+				if out == 0 {
+					return 3
+				}
+				return out
+			}
+			return 3
+		}
+		// edges cut and blocks reachable under the assignment (conditions here are plain nil tests)
+		feasible = func(eNil, pNil bool) (map[engine.Edge]bool, map[*ssa.BasicBlock]bool) {
+			if m, ok := memo[[2]bool{eNil, pNil}]; ok {
+				return m[0].(map[engine.Edge]bool), m[1].(map[*ssa.BasicBlock]bool)
+			}
+			cut := map[engine.Edge]bool{}
+			for _, i := range engine.Ifs(f) {
+				if _, isPhi := i.Cond.(*ssa.Phi); isPhi {
+					continue
+				}
+				switch eval(i.Cond, eNil, pNil, i.Block(), 0) {
+				case 1:
+					cut[engine.Edge{From: i.Block(), Succ: 0}] = true
+				case 2:
+					cut[engine.Edge{From: i.Block(), Succ: 1}] = true
+				}
+			}
+			reach := engine.ReachAvoiding(f, nil, cut, nil)
+			memo[[2]bool{eNil, pNil}] = [2]interface{}{cut, reach}
+			return cut, reach
+		}
+		canBeTrue := func(eNil, pNil bool) bool {
+			_, reach := feasible(eNil, pNil)
+			for _, ret := range engine.Returns(f) {
+				if !reach[ret.Block()] {
+					continue
+				}
+				if eval(ret.Results[0], eNil, pNil, ret.Block(), 0)&2 != 0 {
+					return true
+				}
+			}
+			return false
+		}
+		r.Check(!canBeTrue(false, false), "C07-R10", "Header.IsValid|false for a header with both parts set", p.Pos(f.Pos()), "exactly one part", "Header.IsValid can return true for a header carrying an empty AND a proposed part: its hash and certificate are those of the proposed part while seed, flags and roots are read from the empty part and ValidateHeader skips the seed proof — the committee of the next round is drawn from a seed the sender chose")
+		r.Check(!canBeTrue(true, true), "C07-R10", "Header.IsValid|false for a header with no part", p.Pos(f.Pos()), "exactly one part", "Header.IsValid can return true for a header with neither part")
+		r.Check(canBeTrue(true, false) && canBeTrue(false, true), "C07-R10", "Header.IsValid|true for each single part", p.Pos(f.Pos()), "both kinds of block are valid", "Header.IsValid refuses every proposed (or every empty) header")
+	}
+	n := 0
+	for _, f := range funcsOfPkg(p, "core/validators") {
+		if f.Blocks == nil || isTestish(p.Pos(f.Pos())) {
+			continue
+		}
+		for _, c := range callsTo(f, "core/validators.ValidatorsCache.determineValidators") {
+			cv, ok := c.(*ssa.Call)
+			if !ok || cv.Referrers() == nil {
+				continue
+			}
+			n++
+			// where each result ends up: the field of StepValidators it is stored into
+			dest := map[int]string{}
+			for _, ref := range *cv.Referrers() {
+				ex, isEx := ref.(*ssa.Extract)
+				if !isEx || ex.Referrers() == nil {
+					continue
+				}
+				for _, r2 := range *ex.Referrers() {
+					if st, isSt := r2.(*ssa.Store); isSt {
+						if o, fld, okF := engine.FieldOf(st.Addr); okF && o == "StepValidators" {
+							dest[ex.Index] = fld
+						}
+					}
+				}
+			}
+			r.Check(dest[0] == "Validators" && dest[1] == "ApprovedValidators", "C07-R10", uniq(r, engine.RelName(f)+"|results of determineValidators bound in order"), p.InstrPos(c), "#0 -> Validators, #1 -> ApprovedValidators", "the results of determineValidators are stored as #0 -> "+dest[0]+", #1 -> "+dest[1]+": with the two swapped every drawn member counts as approved (discriminated members fill the quorum) and the threshold is not reduced for them")
+		}
+	}
+	if n == 0 {
+		r.Und("C07-R10", "determineValidators|callers", "", "no caller found")
+	}
+	r.Floor("C07-R10", 4, "3 IsValid combinations + callers")
 }
